@@ -74,7 +74,7 @@ def generate(gen_dir, repo):
 
 
 def generate_to(gen_dir, repo="/repo"):
-    text, errors = generate(gen_dir, repo)
+    text, errors = eigensym.cached_generate("C10", repo, gen_dir, {"src": [], "gen": ["SrcFunsC10.v"]}, lambda: generate(gen_dir, repo))
     eigensym.write_if_changed(os.path.join(gen_dir, "SrcEigenC10.v"), text)
     return errors
 
